@@ -38,7 +38,7 @@ func specIsReserve(ccr *charging_datatype.AccountDebitRequest) bool {
 }
 
 // A completed request leaves no connection behind, on every return path (C18).
-//@ func SendAccountDebitRequest [C18 C20 C11]
+//@ func SendAccountDebitRequest [C18 C20 C11 C17]
 //@   requires ue != nil && ccr != nil && ue.AbmfClient != nil
 //@   requires [C18 C20] factory.SpecValidated(factory.ChfConfig)
 //@   ensures ghostLiveConns == old(ghostLiveConns)
